@@ -59,6 +59,11 @@ def param_sets(tier):
         sets.append(("spin_%d" % k, {"dir_motor_%d" % i: d for i, d in enumerate(dirs)}))
     sets.append(("heavy", {"m": 5.0, "Jx": 0.05, "Jy": 0.08, "Jz": 0.11, "CM": 0.03, "CT": 2e-5, "tau_up": 0.03, "tau_down": 0.01, "g": 3.7}))
     sets.append(("aero", {"CD0": 0.4, "Cl_p": -0.1, "Cm_q": -0.2, "Cn_r": -0.05}))
+    # a 27 g palm-size vehicle and a 200 kg one: parameters orders of magnitude away from the defaults
+    sets.append(("palm_size", {"m": 0.027, "Jx": 1.4e-5, "Jy": 1.4e-5, "Jz": 2.2e-5, "l_motor_0": 0.046, "l_motor_1": 0.046, "l_motor_2": 0.046, "l_motor_3": 0.046,
+                               "CT": 3.2e-10 * 1e2, "CM": 0.006, "tau_up": 0.005, "tau_down": 0.02}))
+    sets.append(("heavy_lift", {"m": 200.0, "Jx": 40.0, "Jy": 55.0, "Jz": 80.0, "l_motor_0": 1.5, "l_motor_1": 1.5, "l_motor_2": 1.5, "l_motor_3": 1.5, "CT": 2e-3, "CM": 0.05,
+                                "tau_up": 0.3, "tau_down": 0.5}))
     return sets
 
 
@@ -202,3 +207,10 @@ class _Sub:
 
 SUBCHECKS = {"model": _Sub()}
 REPLAY = {"model": lambda c: explore(c).fails}
+
+# results must not depend on which library calls were made earlier in the process (see mc/order.py)
+from .. import order as _order  # noqa: E402
+
+_ORDER = _order.OrderSub("C16", "quadrotor", None)
+SUBCHECKS["order"] = _ORDER
+REPLAY["order"] = _ORDER.replay
